@@ -335,6 +335,10 @@ func checkC02(c *Check) {
 		}
 	}
 
+	// ---- R10 the shortcut never serves a route that binds
+	c.Rule("R10", "shared with C10 (R4)", "a leaf enters the shortcut table only if it and every ancestor is static (every non-static style, match-all included, answers false): the shortcut hands out no bind values", 2)
+	c.Share("C10", []string{"R4"}, 2)
+
 	// ---- R6 `route` parameter on both dispatch paths
 	c.Rule("R6", "E6 sibling agreement", "on both dispatch paths the params handed to the handler hold \"route\" = Route() of the very leaf whose Handler() is invoked", 2)
 	if sh := p.Meth("flamego", "router", "ServeHTTP"); sh != nil {
@@ -571,6 +575,19 @@ func checkRegexConstructor(c *Check, cons *ssa.Function) {
 			idx := map[string]int{"regexp": 0, "binds": 1, "groups": 2}
 			if i, isK := idx[f.Name()]; isK && vExtract(i, vIs(call))(st.Val) {
 				okF[f.Name()] = true
+			} else if isK {
+				// the three results handed over in one struct: the field of the same name of the constructor's result
+				if r, ns, ok := fieldPath(st.Val); ok && len(ns) == 1 && ns[0] == f.Name() {
+					fromCall := vExtract(0, vIs(call))(r)
+					if al, isAl := r.(*ssa.Alloc); isAl && !fromCall {
+						// a struct value kept in a local: the local holds the constructor's result
+						sts := cellStores(al, 0)
+						fromCall = len(sts) == 1 && vExtract(0, vIs(call))(sts[0].Val)
+					}
+					if fromCall {
+						okF[f.Name()] = true
+					}
+				}
 			}
 		})
 		c.Cond(okF["regexp"] && okF["binds"] && okF["groups"], p.FuncKey(fn)+":node-fields", p.Pos(call.Pos()), "node.regexp/binds/groups are the constructor's results, unchanged", "the regex node's regexp/binds/groups are not all taken unchanged from one constructor call")
